@@ -84,6 +84,7 @@ type execResult struct {
 	Log      map[string][]string `json:"log"`    // calls during Run, per variable ("O:-a", "A:X")
 	EnvLog   map[string][]string `json:"envlog"` // calls at declaration time
 	SBU      map[string]bool     `json:"sbu"`    // SetByUser flags read inside the Action
+	Hooks    []string            `json:"hooks,omitempty"` // Before/After interceptors that ran
 	ErrLines []string            `json:"errlines,omitempty"`
 	Usage    string              `json:"usage,omitempty"`
 }
@@ -176,6 +177,8 @@ func runExec(p program, c execCase) (r execResult) {
 			*l = nil
 		}
 	}
+	app.Before = func() { r.Hooks = append(r.Hooks, "before") }
+	app.After = func() { r.Hooks = append(r.Hooks, "after") }
 	app.Action = func() {
 		r.Ran = true
 		for k, b := range sbu {
